@@ -21,7 +21,9 @@ Two population streams go through the *same* real `select`:
     call) with a real `Mutations` object (none / parameter / activation / architecture / RL-hp /
     mixed; mutate_elite on/off), elitism on/off, save_elite on/off, elite_path None / "dir/x.pt" /
     "x", accelerator None.  Judged: size, fresh distinct indices and tournament parents of the
-    returned generation; old population untouched; the elite checkpoint is written exactly where
+    returned generation for populations of length 1, 2, 3 and lengths different from the configured
+    population_size; members are copies, never the old objects; old population untouched (walker
+    fingerprints before / after); the elite checkpoint is written exactly where
     the function says and loads to an agent equal (fingerprints of a save/load round trip) to the
     fittest agent of the OLD population; nothing is written when save_elite is off.
 
@@ -815,8 +817,9 @@ def run_case(case: dict, pool: Pool):
 def gen_family_case(rng: random.Random, algo: str, family: str = "vector", wire: bool = False) -> dict:
     """select() (kind "fam") or tournament_selection_and_mutation (kind "wire") on real agents of `algo`
     that have acted and learned"""
-    npop = rng.choice([2, 3, 3])
-    n = rng.choice([npop, npop, 2, 4]) if not wire else rng.choice([npop, 2, 3])
+    # every length of the population handed in, incl. 1, and configured sizes equal to / different from it
+    npop = rng.choice([1, 2, 3, 3]) if not wire else rng.choice([1, 1, 2, 2, 3])
+    n = rng.choice([npop, npop, 2, 4]) if not wire else rng.choice([npop, 1, 2, 3, 4])
     k = rng.randint(1, npop + 1)
     w = rng.choice([1, 2, 3])
     e = rng.random() < 0.6
@@ -869,7 +872,9 @@ def run_wire_case(case: dict, pool: Pool):
     from agilerl.utils import utils as U
     k, e, n, w = case["cfg"]
     cfg = (int(k), bool(e), int(n), int(w))
-    tags = ["wiring", f"family-{case['algo']}", "elitism-on" if cfg[1] else "elitism-off",
+    tags = ["wiring", f"family-{case['algo']}", f"wiring-len(pop)={len(case['agents'])}",
+            "wiring-len(pop)" + ("==" if len(case["agents"]) == cfg[2] else "!=") + "population_size",
+            "elitism-on" if cfg[1] else "elitism-off",
             f"mutation-{case['mutation']}", "mutate-elite" if case["mutate_elite"] else "keep-elite",
             "save-elite" if case["save_elite"] else "no-save"]
     ts = TournamentSelection(*cfg)
@@ -877,7 +882,14 @@ def run_wire_case(case: dict, pool: Pool):
     mut = mutations_for(case["mutation"], case["mutate_elite"], case["seed"])
     snaps = [snapshot(a) for a in pop]
     tmp = tempfile.mkdtemp(prefix="c05wire_")
+    tmp_ref = tempfile.mkdtemp(prefix="c05wire_ref_")
     cwd = os.getcwd()
+    # what a checkpoint of each fittest OLD agent restores, measured before the call (a wiring that mutates
+    # the old agent in place must not move the reference along with it)
+    keys0 = [key_of(s_["fitness"], cfg[3]) for s_ in snaps]
+    tops0 = [j for j, x in enumerate(keys0) if x == max(keys0)]
+    refs = {c_: checkpoint_groups(pop[c_], os.path.join(tmp_ref, f"ref_{c_}.pt"))[1] for c_ in tops0} \
+        if case["save_elite"] else {}
     calls: list[list[int]] = []
     orig = np.random.randint
 
@@ -962,8 +974,7 @@ def run_wire_case(case: dict, pool: Pool):
             got = {n_: walker.group_value(g) for n_, g in walker.agent_groups(loaded).items()}
             misses = []
             for c_ in tops:
-                _, want = checkpoint_groups(pop[c_], os.path.join(tmp, f"_ref_{c_}.pt"))
-                d = group_diff(got, want)
+                d = group_diff(got, refs[c_])
                 if not d:
                     misses = []
                     break
@@ -992,6 +1003,7 @@ def run_wire_case(case: dict, pool: Pool):
     finally:
         os.chdir(cwd)
         shutil.rmtree(tmp, ignore_errors=True)
+        shutil.rmtree(tmp_ref, ignore_errors=True)
     return impl, ops, problems, tags
 
 
@@ -1209,6 +1221,15 @@ def run(chk: Check) -> None:
                       mutation="param", cfg=[2, True, 3, 2]))
     cases.append(dict(gen_family_case(rng, "DQN", "vector", wire=True), save_elite=True, mutate_elite=False,
                       mutation="none", cfg=[2, False, 3, 2]))
+    # population lengths 1 and 2 and lengths different from the configured population_size, always present
+    for algo, npop_, n_, e_, mk in (("DQN", 1, 3, True, "param"), ("DQN", 1, 1, True, "param"),
+                                     ("NeuralUCB", 1, 2, False, "param"), ("DQN", 2, 4, True, "rl_hp"),
+                                     ("DDPG", 3, 2, False, "none"), ("PPO", 2, 1, True, "param")):
+        c = gen_family_case(rng, algo, "vector", wire=True)
+        w_ = c["cfg"][3]
+        c.update(cfg=[rng.randint(1, npop_ + 1), e_, n_, w_], save_elite=True, mutate_elite=True, mutation=mk,
+                 agents=gen_agents(rng, npop_, w_, [Fraction(v) for v in c["pool"]], "offset"))
+        cases.append(c)
     # rejected inputs: the constructor's assertions and the empty population
     for bad in ([0, True, 3, 2], [2, True, 0, 2], [2, False, 3, 0]):
         cases.append({"kind": "stub", "cfg": bad, "agents": [{"index": 0, "fitness": ["1"]}], "seed": 1, "gens": 1})
